@@ -4,6 +4,10 @@ LensAll   == {1, 62, 4095, 4096, 4097, 8192, 16385, 20000}
 LensSmall == {1, 62, 4097}
 ModesAll  == {"eof", "nbio"}
 NoPats    == {<<>>}
+DefaultPath == {0}
+\* path lengths across the kernel limit (sun_path holds 107 characters)
+PathSweep == {60, 105, 106, 107, 108, 109, 120}
+LensPath  == {62, 4097}
 \* long transfers: cyclic patterns for the whole transfer
 LensLongQuick    == {1000, 4097}
 LensLongThorough == {1000, 4097, 8192, 20000}
